@@ -682,6 +682,8 @@ _READERS = {"C07", "C08"}
 
 def tie_relevant(prop, tie):
     name = tie[4:]
+    if name.startswith("fibex_"):
+        return prop == "C11"                       # the type vocabulary of the FIBEX loader
     if name == "DEFAULT_ECU_ID":
         return prop == "C15"
     if name == "DEFAULT_MESSAGE_MAX_LEN":
